@@ -58,7 +58,7 @@ def main (args : List String) : IO UInt32 := do
   | ["dkgsm"] => loopState stdin stdout dkgStep {}; return 0
   | ["net"] => loopState stdin stdout netStep {}; return 0
   | ["netr"] => loopState stdin stdout Drand.Driver.NetRD.step {}; return 0
-  | ["cache"] => loopState stdin stdout cacheStep (Drand.Beacon.Cache.empty 96); return 0
+  | ["cache"] => loopState stdin stdout cacheStep (Drand.Beacon.Cache.empty 96 Gen.replaceSameIndex); return 0
   | ["stream", backend] => loopState stdin stdout streamStep' (streamDrvInit backend "asis"); return 0
   | ["stream", backend, variant] => loopState stdin stdout streamStep' (streamDrvInit backend variant); return 0
   | ["cbstore"] => loopState stdin stdout cbStep cbDrvInit; return 0
